@@ -1265,6 +1265,7 @@ def run_shard(shard, tier, seed):
     else:
         for cid in shard["cids"]:
             run_grammar(acc, fam, tuple(tuple(x) for x in cid), shard["level"])
+    finalize(acc)  # per-shard minimisation too: a capped run skips the merged finalize
     return acc
 
 
